@@ -7,7 +7,7 @@ import z3
 from .ctx import Unsupported, PathAbort, Ctx, Explorer
 from .values import (SV, Seq, SymSeq, RangeV, NDArr, PDict, SymDict, Obj, NT, NTClass, ClassObj, ExcClass,
                      ExcObj, PyExc, Closure, Builtin, BoundMethod, ModuleObj, TypeObj, SliceV, ELLIPSIS,
-                     EllipsisV, Partial, Opaque, Poison, Inf, real_const)
+                     EllipsisV, Partial, Opaque, Poison, Inf, real_const, OptVal)
 from . import loader
 
 
@@ -119,6 +119,7 @@ class Interp(object):
         self.fn_stack = []
         self.loop_counters = {}
         self.pure_since = None
+        self.hoist = None
         self.writes = []           # log of heap writes: (obj, what)
         self.trace_calls = []
         from . import pybuiltins, npmodel
@@ -133,6 +134,7 @@ class Interp(object):
 
     def z(self, v, want=None):
         """value -> z3 expression"""
+        v = self.force(v)
         if isinstance(v, SV):
             e = v.z
             k = v.kind
@@ -177,6 +179,8 @@ class Interp(object):
         return e
 
     def kind(self, v):
+        if isinstance(v, OptVal):
+            raise Unsupported('internal: unforced optional value')
         if isinstance(v, SV):
             return v.kind
         if isinstance(v, z3.ExprRef):
@@ -225,8 +229,14 @@ class Interp(object):
                 return fractions.Fraction(e.numerator_as_long(), e.denominator_as_long())
         return None
 
+    def force(self, v):
+        while isinstance(v, OptVal):
+            v = None if self.ctx.branch(v.isnone) else v.val
+        return v
+
     # ------------------------------------------------------------------ truthiness
     def truth(self, v):
+        v = self.force(v)
         if isinstance(v, bool):
             return v
         if v is None:
@@ -263,6 +273,7 @@ class Interp(object):
     # ------------------------------------------------------------------ scalar arithmetic
     def binop(self, op, a, b):
         from .values import NDArr
+        a, b = self.force(a), self.force(b)
         if isinstance(a, Poison) or isinstance(b, Poison):
             raise Unsupported('use of a havocked loop variable')
         if isinstance(a, NDArr) or isinstance(b, NDArr):
@@ -480,6 +491,7 @@ class Interp(object):
         ax(z3.ForAll([x], log10(exp10(x)) == x, patterns=[exp10(x)]), 'A-REAL:log10(exp10 x)=x')
 
     def unop(self, op, a):
+        a = self.force(a)
         if isinstance(a, NDArr):
             return self.np.unop(op, a)
         if op == 'Not':
@@ -533,6 +545,7 @@ class Interp(object):
 
     # ------------------------------------------------------------------ comparison
     def compare(self, op, a, b):
+        a, b = self.force(a), self.force(b)
         if isinstance(a, Poison) or isinstance(b, Poison):
             raise Unsupported('use of a havocked loop variable')
         if op == 'Is':
@@ -597,6 +610,7 @@ class Interp(object):
 
     def equals(self, a, b):
         """== on non-array values -> bool | SV bool"""
+        a, b = self.force(a), self.force(b)
         if a is None or b is None:
             if a is None and b is None:
                 return True
@@ -881,6 +895,10 @@ class Interp(object):
 
     # ------------------------------------------------------------------ expressions
     def eval(self, node, env):
+        if self.hoist is not None:
+            h = self.hoist.get(id(node))
+            if h is not None:
+                return h[0]
         m = getattr(self, 'eval_' + type(node).__name__, None)
         if m is None:
             self.unsupported(node, 'expression %s' % type(node).__name__)
@@ -1102,13 +1120,70 @@ class Interp(object):
                 # re-run the body at k0: it must raise
                 self.comp_body(node, g, it, env, k0)
                 raise PathAbort('comprehension body did not raise at the failing index')
-        interp = self
+        hoisted = self.hoist_invariants(node.elt, g.target, env)
+        it_snap = self.snapshot(it)
 
-        def fn(interp_, i, node=node, g=g, it=it, env=env):
-            return interp_.comp_body(node, g, it, env, i)
+        def fn(interp_, i, node=node, g=g, it=it_snap, env=env, hoisted=hoisted):
+            saved = interp_.hoist
+            interp_.hoist = hoisted
+            try:
+                return interp_.comp_body(node, g, it, env, i)
+            finally:
+                interp_.hoist = saved
         res = stamp(SymSeq('list', n, fn))
         res.map_of = it
         return res
+
+    def snapshot(self, v):
+        """value as it is now (later in-place changes of the original are not seen through the copy)"""
+        if isinstance(v, SymSeq):
+            c = SymSeq(v.kind, v.n, v.fn, list(v.overlays), v.name)
+            c.elem_token = v.elem_token
+            c.birth = getattr(v, 'birth', 0)
+            return c
+        if isinstance(v, Seq) and v.kind == 'list':
+            c = Seq(v.kind, list(v.items))
+            c.birth = getattr(v, 'birth', 0)
+            return c
+        if isinstance(v, ZipV):
+            return ZipV([self.snapshot(p) for p in v.parts])
+        if isinstance(v, EnumV):
+            return EnumV(self.snapshot(v.seq), v.start)
+        return v
+
+    def hoist_invariants(self, elt, target, env):
+        """The element expression of a comprehension over a symbolic sequence is evaluated on demand.
+        Sub-expressions that do not depend on the loop variable (names, attribute and constant-subscript
+        chains) are evaluated now, so that later assignments cannot leak into the elements."""
+        tnames = set(n.id for n in ast.walk(target) if isinstance(n, ast.Name))
+        out = {}
+
+        def depends(n):
+            return any(isinstance(x, ast.Name) and x.id in tnames for x in ast.walk(n))
+
+        def simple(n):
+            if isinstance(n, ast.Name):
+                return True
+            if isinstance(n, ast.Attribute):
+                return simple(n.value)
+            if isinstance(n, ast.Subscript):
+                return simple(n.value) and isinstance(n.slice, ast.Constant)
+            return False
+
+        def visit(n):
+            if isinstance(n, ast.expr) and simple(n) and not depends(n):
+                try:
+                    v = self.eval(n, env)
+                except (PyExc, Unsupported):
+                    return
+                out[id(n)] = (self.snapshot(v), n)
+                return
+            if isinstance(n, (ast.Lambda, ast.ListComp, ast.GeneratorExp, ast.DictComp, ast.SetComp)):
+                return
+            for ch in ast.iter_child_nodes(n):
+                visit(ch)
+        visit(elt)
+        return out
 
     def comp_body(self, node, g, it, env, k):
         item = self.seq_get_sym(it, k)
@@ -1176,6 +1251,7 @@ class Interp(object):
 
     # ------------------------------------------------------------------ sequences
     def seq_len(self, s):
+        s = self.force(s)
         if isinstance(s, Seq):
             return len(s.items)
         if isinstance(s, SymSeq):
@@ -1230,6 +1306,7 @@ class Interp(object):
 
     def iterate_concrete(self, it):
         """python list of the elements of an iterable with concrete length"""
+        it = self.force(it)
         if isinstance(it, Seq):
             return list(it.items)
         if isinstance(it, NT):
@@ -1267,6 +1344,8 @@ class Interp(object):
             return self.slice_seq(s, key)
         if isinstance(key, bool):
             key = int(key)
+        if isinstance(key, SV) and key.kind == 'bool' and not key.np:
+            key = self.mk(self.z(key, 'int'), 'int')      # bool is an int subclass: True indexes position 1
         if isinstance(s, NT):
             s = Seq('tuple', s.values)
         if self.kind(key) != 'int':
@@ -1339,6 +1418,7 @@ class Interp(object):
         ln = self.mk(z3.If(bz - az < 0, z3.IntVal(0), bz - az), 'int')
         base = s2
         res = stamp(SymSeq(base.kind, ln, lambda interp, i, base=base, az=az: interp.seq_get_sym(base, z3.simplify(i + az))))
+        res.elem_token = getattr(base, 'elem_token', None)
         return res
 
     def seq_to_symseq(self, s):
@@ -1349,6 +1429,7 @@ class Interp(object):
 
     # ------------------------------------------------------------------ getitem / setitem
     def getitem(self, obj, key):
+        obj, key = self.force(obj), self.force(key)
         if isinstance(obj, Poison):
             raise Unsupported('use of a havocked loop variable: ' + obj.why)
         if isinstance(obj, NDArr):
@@ -1539,6 +1620,7 @@ class Interp(object):
 
     def getattr_(self, obj, name, node=None):
         from . import pybuiltins
+        obj = self.force(obj)
         if isinstance(obj, Poison):
             raise Unsupported('use of a havocked loop variable: ' + obj.why)
         if isinstance(obj, ModuleObj):
@@ -1634,6 +1716,7 @@ class Interp(object):
 
     # ------------------------------------------------------------------ calls
     def call(self, fv, args, kwargs, node=None):
+        fv = self.force(fv)
         if isinstance(fv, Builtin):
             return fv.fn(self, args, kwargs)
         if isinstance(fv, BoundMethod):
